@@ -200,6 +200,7 @@ VARIANTS = [
     ("T-K18", "T", "C16", LI, "self._choi = _unvec(choi)", "choi_matrix = _unvec(choi)\n        self._choi = choi_matrix"),
     # ---------------- C17
     ("B-17a", "B", "C17", SIMR, "        if self.result_type == \"probability_amplitude\":\n            raise ValueError(\n                \"Threshold mapping cannot be applied to probability \"\n                \"amplitudes.\"\n            )\n", ""),
+    ("B-17m", "B", "C17", SAMR, "        mapped_result: dict[State, float] = {}\n        for out_state, val in self.items():\n            if invert:\n                new_s = State([1 - (s % 2) for s in out_state])\n            else:\n                new_s = State([s % 2 for s in out_state])\n            if new_s in mapped_result:\n                mapped_result[new_s] += val\n            else:\n                mapped_result[new_s] = val\n", "        mapped_result = {State([(1 - s % 2) if invert else s % 2 for s in out_state]): val for out_state, val in self.items()}\n"),
     ("B-17b", "B", "C17", SIMR, "                    array[i, j] = mapped_result[in_state][out_state]", "                    array[j, i] = mapped_result[in_state][out_state]"),
     ("B-17c", "B", "C17", SIMR, "            outputs=list(unique_outputs),", "            outputs=sorted(unique_outputs, key=str),"),
     ("B-G9", "B", "C17", SIMR, "                    new_s = State([s % 2 for s in out_state])\n                if new_s in mapped_result[in_state]:\n                    mapped_result[in_state][new_s] += val\n                else:\n                    mapped_result[in_state][new_s] = val", "                    new_s = State([s % 2 for s in out_state])\n                mapped_result[in_state][new_s] = val"),
